@@ -225,8 +225,18 @@ Proof. vm_compute. reflexivity. Qed.
 
 Example c22_deck_nonvacuous :
   recs (file (run {| crule := Deck; clog := [(0, O, [0; 1])] |} 0 wit_ss None
-              [Start; Push O (DMap [(1, 5)]); Push O (DOther 3); Push O (DMap [(0, 6); (1, 7)]); Tick; Run; Stop])) =
+              [Start; Push O (DMap [(1, 5)]); Push O (DOther (OInt 3)); Push O (DMap [(0, 6); (1, 7)]); Tick; Run; Stop])) =
   [Rec 1 [None; Some (VZ 5)]; Rec 1 [Some (VZ 6); Some (VZ 7)]].
+Proof. vm_compute. reflexivity. Qed.
+
+(* falsy entries: None, 0, '', [] are not mappings -> consumed and skipped, what is queued behind them is still
+   logged in the same run and the deck is left empty; the empty mapping {} IS a mapping -> a record of bare tabs *)
+Example c22_deck_falsy_entries :
+  let s := run {| crule := Deck; clog := [(0, O, [0; 1])] |} 0 wit_ss None
+              [Push O (DMap [(0, 1)]); Push O (DOther ONone); Push O (DMap [(0, 2)]); Push O (DOther (OInt 0));
+               Push O (DOther (OStr [])); Push O (DMap []); Push O (DOther (OList [])); Push O (DMap [(1, 3)]); Start] in
+  (recs (file s), sdeck (getsh (shares s) O)) =
+  ([Rec 0 [Some (VZ 1); None]; Rec 0 [Some (VZ 2); None]; Rec 0 [None; None]; Rec 0 [None; Some (VZ 3)]], []).
 Proof. vm_compute. reflexivity. Qed.
 
 Example c22_streak_mapping_nonvacuous :
